@@ -113,7 +113,22 @@ def run(ctx, F, cg):
             q_before = [cc for cc in b.calls() if cc.path.endswith("Try>::branch") and cc.args and cc.args[0][0] != "k" and any(cc.args[0][1][0] == w2.dest[0] for w2 in writes)]
             if q_before:
                 released = False
-        if prop and dom and released:
+        # the unit is given back in exactly one place: nothing called after the reservation adjusts usage itself,
+        # and no path passes two releases
+        double = None
+        for w in writes:
+            if w.path in F.fns:
+                for tgt in ("decrement_usage", "increment_usage", "set_usage", "reserve_usage"):
+                    hits = cg.find_reaching(w.path, ["TenantManager::" + tgt])
+                    if hits:
+                        double = "%s also reaches TenantManager::%s (%s): on that path usage is adjusted twice" % (w.path.replace(PM, ""), tgt, " -> ".join(x.rsplit("::", 1)[-1] for x in hits[0]))
+        for a_ in rel:
+            for b_ in rel:
+                if a_ is not b_ and b_.bb in b.reachable(a_.bb) and a_.bb != b_.bb:
+                    double = "two decrement_usage calls lie on one path"
+        if double:
+            ctx.violation("R18b", nm + "|double-release", where(r, k.line), double)
+        elif prop and dom and released:
             ctx.ok("R18b", nm, "reservation dominates %d write call(s), is propagated with `?`, and a failed write passes decrement_usage" % len(writes))
         else:
             ctx.violation("R18b", nm + "|reserve-release", where(r, k.line), "reservation protocol broken: error propagated=%s, dominates writes=%s, released on failure=%s" % (prop, dom, released))
